@@ -75,11 +75,20 @@ C11(z) ==
   \cup UNION {{Fmt(v, p) : v \in {Dt(D(2022, 5, 2), 45296, 123456789, 3600), Dat(D(-5, 2, 29)), Tm(3600, 1, -60)}} :
                 p \in UNION {Strings(QuoteAlphabet, n) : n \in (IF First THEN 1..(IF Thorough THEN 6 ELSE 5) ELSE {})}}
   \cup {Fmt(v, Composite[i]) : i \in {x \in 1..Len(Composite) : InShard(x)}, v \in DtValues}
+  \* two runs of different symbols directly next to each other, every ordered pair (a run ends where the letter changes,
+  \* also when only its case changes: "ddDDD", "hhHH", "mmMM")
+  \cup UNION {{Fmt(v, Rep(Symbols[i], w[1]) \o Rep(Symbols[j], w[2])) :
+                  v \in {Dt(D(2022, 7, 5), 45296, 123456789, 3600), Dat(D(-5, 2, 29)), Tm(83045, 1, -60)}} :
+              i \in {x \in 1..Len(Symbols) : InShard(x)}, j \in 1..Len(Symbols), w \in {<<2, 3>>, <<1, 2>>}}
 
 \* ---- C02: the w / q / e / D fields at every width on runs of consecutive days (all weekdays, year ends) -----
 C02(z) ==
   LET days == NameDays \cup {D(2020, 12, 27) + k : k \in 0..9} \cup {D(2024, 12, 27) + k : k \in 0..9} \cup {D(2021, 12, 27) + k : k \in 0..9}
   IN UNION {{Fmt(Dat(d), Rep(c, w)), Fmt(Dt(d, 82800, 5, 7200), Rep(c, w))} : d \in {x \in days : InShard(x)}, c \in {"w", "q", "e", "D"}, w \in 1..10}
+     \* the same fields directly beside a run of any other symbol, in either order
+     \cup UNION {{Fmt(Dat(d), Rep(c, 3) \o Rep(Symbols[j], 2)), Fmt(Dt(d, 82800, 5, 7200), Rep(Symbols[j], 2) \o Rep(c, 3))} :
+                   d \in {x \in {D(2022, 7, 5), D(2024, 12, 30), D(-5, 2, 29), D(2021, 1, 3)} : InShard(x)},
+                   c \in {"w", "q", "e", "D"}, j \in 1..Len(Symbols)}
 
 \* ---- C12 ----------------------------------------------------------------------------------
 S(str) == str
